@@ -69,6 +69,106 @@ def check_seq(spec, evs, upto=None):
     return out, (None if weak else C.norm(h.toJson()))
 
 
+# ------------------------------------------------------------------ convenience constructors and input types
+def convenience_cases():
+    """(name, thunk building the aggregator through histogrammar.convenience / .ing(), equivalent spec)."""
+    import histogrammar as hg
+    import histogrammar.convenience as CV
+
+    qx, qy, qs = (lambda: eval('lambda d: d["x"]')), (lambda: eval('lambda d: d["y"]')), (lambda: eval('lambda d: d["s"]'))
+    qc = lambda: eval('lambda d: d["c"]')  # noqa: E731
+    cnt = {"t": "Count"}
+    B = lambda v, q="x", p=(2, 0.0, 2.0): {"t": "Bin", "p": list(p), "q": q, "v": v}  # noqa: E731
+    SB = lambda v, q="x", p=(1.0, 0.0): {"t": "SparselyBin", "p": list(p), "q": q, "v": v}  # noqa: E731
+    return [
+        ("Histogram", lambda: CV.Histogram(2, 0.0, 2.0, qx()), B(cnt)),
+        ("HistogramCut", lambda: CV.HistogramCut(2, 0.0, 2.0, qx(), qs()), {"t": "Select", "q": "s", "v": B(cnt)}),
+        ("SparselyHistogram", lambda: CV.SparselyHistogram(0.5, qx(), -0.25), SB(cnt, p=(0.5, -0.25))),
+        ("CategorizeHistogram", lambda: CV.CategorizeHistogram(qc()), {"t": "Categorize", "q": "c", "v": cnt}),
+        ("Profile", lambda: CV.Profile(2, 0.0, 2.0, qx(), qy()), B({"t": "Average", "q": "y"})),
+        ("SparselyProfile", lambda: CV.SparselyProfile(1.0, qx(), qy()), SB({"t": "Average", "q": "y"})),
+        ("ProfileErr", lambda: CV.ProfileErr(2, 0.0, 2.0, qx(), qy()), B({"t": "Deviate", "q": "y"})),
+        ("SparselyProfileErr", lambda: CV.SparselyProfileErr(1.0, qx(), qy(), 0.0), SB({"t": "Deviate", "q": "y"})),
+        ("TwoDimensionallyHistogram", lambda: CV.TwoDimensionallyHistogram(2, 0.0, 2.0, qx(), 2, 0.0, 2.0, qy()),
+         B(B(cnt, "y"))),
+        ("TwoDimensionallySparselyHistogram", lambda: CV.TwoDimensionallySparselyHistogram(1.0, qx(), 1.0, qy()),
+         SB(SB(cnt, "y"))),
+        ("Bin.ing", lambda: hg.Bin.ing(2, 0.0, 2.0, qx(), hg.Sum.ing(qy())), B({"t": "Sum", "q": "y"})),
+        ("SparselyBin.ing", lambda: hg.SparselyBin.ing(1.0, qx(), hg.Minimize.ing(qy())), SB({"t": "Minimize", "q": "y"})),
+        ("CentrallyBin.ing", lambda: hg.CentrallyBin.ing([0.0, 1.0, 3.0], qx(), hg.Maximize.ing(qy())),
+         {"t": "CentrallyBin", "p": [0.0, 1.0, 3.0], "q": "x", "v": {"t": "Maximize", "q": "y"}}),
+        ("IrregularlyBin.ing", lambda: hg.IrregularlyBin.ing([0.0, 1.0], qx(), hg.Count.ing()),
+         {"t": "IrregularlyBin", "p": [0.0, 1.0], "q": "x", "v": cnt}),
+        ("Stack.ing", lambda: hg.Stack.ing([0.0, 1.0], qx(), hg.Deviate.ing(qy())),
+         {"t": "Stack", "p": [0.0, 1.0], "q": "x", "v": {"t": "Deviate", "q": "y"}}),
+        ("Categorize.ing", lambda: hg.Categorize.ing(qc(), hg.Bag.ing(qy())), None),
+        ("Fraction.ing", lambda: hg.Fraction.ing(qs(), hg.Average.ing(qy())), {"t": "Fraction", "q": "s", "v": {"t": "Average", "q": "y"}}),
+        ("Select.ing", lambda: hg.Select.ing(qs(), hg.Sum.ing(qx())), {"t": "Select", "q": "s", "v": {"t": "Sum", "q": "x"}}),
+        ("Label.ing", lambda: hg.Label.ing(a=hg.Sum.ing(qx()), b=hg.Sum.ing(qy())),
+         {"t": "Label", "ch": {"a": {"t": "Sum", "q": "x"}, "b": {"t": "Sum", "q": "y"}}}),
+        ("Branch.ing", lambda: hg.Branch.ing(hg.Count.ing(), hg.Average.ing(qx())),
+         {"t": "Branch", "ch": [cnt, {"t": "Average", "q": "x"}]}),
+    ]
+
+
+def check_convenience(name, evs):
+    """An aggregator built through a convenience function / .ing() synonym must be filled like the explicit tree."""
+    case = [c for c in convenience_cases() if c[0] == name][0]
+    _, thunk, spec = case
+    args = {"convenience": name, "evs": core.show_evs(evs)}
+    if spec is None:
+        return []
+    try:
+        h = thunk()
+        for r, w in evs:
+            h.fill(A.fresh(r), w)
+        d = C.diff(h.toJson(), R.ref_doc(spec, evs))
+    except Exception as e:
+        return [core.v_exc(PROP, "convenience", "%s raised" % name, e, args)]
+    if d:
+        return [core.v_diff(PROP, "convenience", "%s differs from the reference of the equivalent tree" % name, d,
+                            h.toJson(), args)]
+    return []
+
+
+def typed(rec, variant):
+    """The same record with numeric values as other numeric types (int where integral, numpy scalars, bool for 0/1)."""
+    import numpy as np
+
+    out = dict(rec)
+    for k in ("x", "y", "s"):
+        v = rec.get(k)
+        if isinstance(v, bool) or not isinstance(v, float) or v != v or v in (float("inf"), float("-inf")):
+            if variant == "numpy" and isinstance(v, float):
+                out[k] = np.float64(v)
+            continue
+        if variant == "int" and v == int(v):
+            out[k] = int(v)
+        elif variant == "numpy":
+            out[k] = np.float64(v) if v != int(v) else np.int64(int(v))
+        elif variant == "numpy32" and float(np.float32(v)) == v:
+            out[k] = np.float32(v)
+    return out
+
+
+def check_typed(spec, evs, variant):
+    """Filling ints / numpy scalars must give exactly what the equal floats give (the reference is value-based)."""
+    args = {"spec": spec, "evs": core.show_evs(evs), "variant": variant}
+    try:
+        h = S.build(spec)
+        for r, w in evs:
+            if inexact_nodes(spec, r):
+                return []
+            h.fill(typed(A.fresh(r), variant), w if variant != "numpy" else __import__("numpy").float64(w))
+        d = C.diff(h.toJson(), R.ref_doc(spec, evs))
+    except Exception as e:
+        return [core.v_exc(PROP, "typed-input", "fill of %s values raised" % variant, e, args)]
+    if d:
+        return [core.v_diff(PROP, "typed-input", "filling %s values differs from filling equal floats" % variant, d,
+                            h.toJson(), args)]
+    return []
+
+
 def plans(spec, tier):
     d = S.depth(spec)
     if d == 1:
@@ -110,10 +210,41 @@ def _tree(task):
                     acc.n("root_route_" + str(cl))
             if any(not (w > 0) for _, w in hist):
                 acc.n("sequences_with_noop_weight")
+    # the same data as ints / numpy scalars (every single event of the mid alphabet, and pairs of the core one)
+    mid = A.events(spec, "mid", cap=40, weights=[1.0, 0.5], noop=False)
+    corev = A.events(spec, "core", cap=6, weights=[1.0], noop=False)
+    for variant in ("int", "numpy", "numpy32"):
+        for e in mid:
+            acc.add(check_typed(spec, [e], variant))
+            acc.n("typed_input_sequences")
+        for e1, e2 in itertools.product(corev, corev):
+            acc.add(check_typed(spec, [e1, e2], variant))
+            acc.n("typed_input_sequences")
     if not acc.samples:
         evs = A.events(spec, "core", cap=8)
         acc.sample(core.sample_hist(spec, evs[:2]))
     return acc.freeze_sets()
+
+
+def _conv(task):
+    name, tier = task
+    acc = FW.Acc()
+    spec = [c for c in convenience_cases() if c[0] == name][0][2]
+    if spec is None:
+        return acc
+    evs = A.events(spec, "mid", cap=30, weights=[1.0, 0.5])
+    n = 2
+    for seq in itertools.product(range(len(evs)), repeat=n):
+        acc.add(check_convenience(name, [evs[i] for i in seq]))
+        acc.n("convenience_sequences")
+        acc.n("sequences")
+        acc.n("transitions", n)
+    acc.distinct("states", FW.hkey(("conv", name)))
+    return acc.freeze_sets()
+
+
+def _dispatch(task):
+    return _tree(task[1]) if task[0] == "tree" else _conv(task[1])
 
 
 def trees(tier):
@@ -133,7 +264,8 @@ def trees(tier):
 
 def run(tier, seed):
     ts = trees(tier)
-    accs = FW.pmap(_tree, [(t, tier) for t in ts], seed)
+    tasks = [("tree", (t, tier)) for t in ts] + [("conv", (c[0], tier)) for c in convenience_cases()]
+    accs = FW.pmap(_dispatch, tasks, seed)
     acc = FW.Acc()
     for a in accs:
         acc.merge(a)
@@ -161,5 +293,9 @@ def run(tier, seed):
 
 
 def replay(driver, args):
+    if driver == "convenience":
+        return check_convenience(args["convenience"], core.unshow_evs(args["evs"]))
+    if driver == "typed-input":
+        return check_typed(args["spec"], core.unshow_evs(args["evs"]), args["variant"])
     vs, _ = check_seq(args["spec"], core.unshow_evs(args["evs"]))
     return vs
